@@ -1323,3 +1323,156 @@ Proof.
   split; [split; [apply repeat_pos'; lia|vm_compute; reflexivity]|].
   intros H. apply (f_equal lx_names) in H. vm_compute in H. discriminate.
 Qed.
+
+(* ================================================================================================= *)
+(* 8. cutting a stored solid entry that decodes: the lazy reader yields a prefix of its entries         *)
+(* ================================================================================================= *)
+Lemma ok_inj {A} (a b : A) : @Ok A a = Ok b -> a = b.
+Proof. intros H. injection H as H. exact H. Qed.
+
+Section CutPrefix.
+Variables E D : encryption -> bytes -> bytes -> bytes.
+Variable decompress : compression -> bytes -> res bytes.
+Variable verify : bytes -> bytes -> res bytes.
+Hypothesis D_len : forall a k c, len16 c -> len16 (D a k c).
+
+(* CBC: the reader over a cut of a ciphertext that decodes delivers a prefix of its plaintext *)
+Lemma avail_blocks_cut d k : forall n x, (length x <= n)%nat -> forall j prev look P2,
+  avail_blocks d k prev look (chunks 16 x) = (P2, FinOk) ->
+  exists rest, P2 = fst (avail_blocks d k prev look (chunks 16 (firstn j x))) ++ rest.
+Proof.
+  induction n as [|n IH]; intros x Hn j prev look P2 H.
+  - destruct x; [|cbn [length] in Hn; lia]. rewrite firstn_nil. rewrite H. exists []. cbn [fst]. rewrite app_nil_r. reflexivity.
+  - destruct x as [|b x]; [rewrite firstn_nil, H; exists []; cbn [fst]; rewrite app_nil_r; reflexivity|].
+    rewrite chunks_cons16 in H by discriminate. cbn [avail_blocks] in H.
+    set (p := xor_bytes (d k look) prev) in *.
+    destruct (N.eqb_spec (len (firstn 16 (b :: x))) 16) as [E16|E16]; [|discriminate].
+    destruct (avail_blocks d k look (firstn 16 (b :: x)) (chunks 16 (skipn 16 (b :: x)))) as [t f] eqn:Et.
+    injection H as <- ->.
+    destruct j as [|j].
+    + (* nothing behind the look-ahead block: it is taken for the last one *)
+      cbn [firstn chunks chunks_fuel length avail_blocks]. fold p.
+      unfold pkcs7_unpad_block. destruct (_ || _); [exists (p ++ t); reflexivity|].
+      destruct (forallb _ _); [|exists (p ++ t); reflexivity]. cbn [fst].
+      exists (fdrop (16 - b2n (last p x00)) p ++ t). rewrite app_assoc, ftake_fdrop. reflexivity.
+    + rewrite chunks_cons16 by (cbn [firstn]; discriminate). cbn [avail_blocks]. fold p.
+      rewrite firstn_firstn.
+      destruct (Nat.le_gt_cases 16 (S j)) as [Hj|Hj].
+      * rewrite Nat.min_l by exact Hj. replace (len (firstn 16 (b :: x)) =? 16) with true by (symmetry; apply N.eqb_eq; exact E16).
+        rewrite skipn_firstn_comm.
+        assert (Hl : (length (skipn 16 (b :: x)) <= n)%nat) by (rewrite skipn_length; cbn [length] in *; lia).
+        destruct (IH _ Hl (S j - 16)%nat look (firstn 16 (b :: x)) t Et) as (rest & Hr).
+        destruct (avail_blocks d k look (firstn 16 (b :: x)) (chunks 16 (firstn (S j - 16) (skipn 16 (b :: x))))) as [t1 f1].
+        cbn [fst] in *. exists rest. rewrite Hr, app_assoc. reflexivity.
+      * rewrite Nat.min_r by lia.
+        assert (Hs : len (firstn (S j) (b :: x)) <> 16).
+        { unfold len. rewrite firstn_length. lia. }
+        apply N.eqb_neq in Hs. rewrite Hs. cbn [fst app]. exists (p ++ t). reflexivity.
+Qed.
+
+(* every mode: the abstract reader over a cut of a stream that decodes cleanly has a prefix of its plaintext *)
+Lemma partial_spec_cut enc mode phsf pw s m P2 P1 f1 :
+  partial_spec E D verify enc mode phsf pw s = Ok (P2, FinOk) ->
+  partial_spec E D verify enc mode phsf pw (firstn m s) = Ok (P1, f1) ->
+  exists rest, P2 = P1 ++ rest.
+Proof.
+  unfold partial_spec. destruct enc.
+  - intros H2 H1. injection H2 as <-. injection H1 as <- _. exists (skipn m s). rewrite firstn_skipn. reflexivity.
+  - destruct phsf as [p|]; [|discriminate]. destruct (verify p pw) as [key| |]; cbn [bind]; try discriminate.
+    destruct (N.eqb_spec (len (firstn 16 (firstn m s))) 16) as [Ei|Ei]; cbn [negb]; [|intros _ H; discriminate].
+    assert (Hm : (16 <= m)%nat /\ (16 <= length s)%nat) by (unfold len in Ei; rewrite !firstn_length in Ei; lia).
+    rewrite firstn_firstn, Nat.min_l in * by lia. rewrite Ei. cbn [negb]. rewrite skipn_firstn_comm.
+    destruct mode.
+    + cbv zeta. rewrite skipn_firstn_comm, firstn_firstn.
+      destruct (N.eqb_spec (len (firstn (Nat.min 16 (m - 16)) (skipn 16 s))) 16) as [Eb|Eb]; cbn [negb]; [|intros _ H; discriminate].
+      assert (Hm2 : (16 <= m - 16)%nat) by (unfold len in Eb; rewrite firstn_length in Eb; lia).
+      rewrite Nat.min_l in * by lia. rewrite Eb. cbn [negb].
+      destruct (negb (key_iv_ok key (firstn 16 s))); [discriminate|]. intros H2 H1. apply ok_inj in H2. apply ok_inj in H1.
+      destruct (avail_blocks_cut (D EAes) key _ (skipn 16 (skipn 16 s)) (le_n _) (m - 16 - 16) _ _ _ H2) as (rest & Hr).
+      rewrite H1 in Hr. exact (ex_intro _ rest Hr).
+    + destruct (key_iv_ok key (firstn 16 s)); [|discriminate]. intros H2 H1. injection H2 as <-. injection H1 as <- _.
+      exists (ctr_xor (E EAes) key (of_be (firstn 16 s)) (0 + len (firstn (m - 16) (skipn 16 s))) (skipn (m - 16) (skipn 16 s))).
+      rewrite <- ctr_xor_app, firstn_skipn. reflexivity.
+  - destruct phsf as [p|]; [|discriminate]. destruct (verify p pw) as [key| |]; cbn [bind]; try discriminate.
+    destruct (N.eqb_spec (len (firstn 16 (firstn m s))) 16) as [Ei|Ei]; cbn [negb]; [|intros _ H; discriminate].
+    assert (Hm : (16 <= m)%nat /\ (16 <= length s)%nat) by (unfold len in Ei; rewrite !firstn_length in Ei; lia).
+    rewrite firstn_firstn, Nat.min_l in * by lia. rewrite Ei. cbn [negb]. rewrite skipn_firstn_comm.
+    destruct mode.
+    + cbv zeta. rewrite skipn_firstn_comm, firstn_firstn.
+      destruct (N.eqb_spec (len (firstn (Nat.min 16 (m - 16)) (skipn 16 s))) 16) as [Eb|Eb]; cbn [negb]; [|intros _ H; discriminate].
+      assert (Hm2 : (16 <= m - 16)%nat) by (unfold len in Eb; rewrite firstn_length in Eb; lia).
+      rewrite Nat.min_l in * by lia. rewrite Eb. cbn [negb].
+      destruct (negb (key_iv_ok key (firstn 16 s))); [discriminate|]. intros H2 H1. apply ok_inj in H2. apply ok_inj in H1.
+      destruct (avail_blocks_cut (D ECamellia) key _ (skipn 16 (skipn 16 s)) (le_n _) (m - 16 - 16) _ _ _ H2) as (rest & Hr).
+      rewrite H1 in Hr. exact (ex_intro _ rest Hr).
+    + destruct (key_iv_ok key (firstn 16 s)); [|discriminate]. intros H2 H1. injection H2 as <-. injection H1 as <- _.
+      exists (ctr_xor (E ECamellia) key (of_be (firstn 16 s)) (0 + len (firstn (m - 16) (skipn 16 s))) (skipn (m - 16) (skipn 16 s))).
+      rewrite <- ctr_xor_app, firstn_skipn. reflexivity.
+Qed.
+
+(* the eager specification of RecutFacts in terms of the abstract reader *)
+Lemma decode_spec_partial enc mode phsf pw s :
+  decode_spec E D decompress verify CNo enc mode phsf pw s =
+  (do a <- partial_spec E D verify enc mode phsf pw s; res_of_fin (fst a) (snd a)).
+Proof.
+  unfold decode_spec, partial_spec, decrypt_spec, cbc_spec.
+  assert (K : forall r : res bytes, (do got <- r; Ok got) = r) by (intros [?| |]; reflexivity). rewrite K.
+  destruct enc; [reflexivity| |];
+    (destruct phsf as [p|]; [|reflexivity]; destruct (verify p pw) as [key| |]; cbn [bind]; try reflexivity;
+     destruct (negb (len (firstn 16 s) =? 16)); [reflexivity|]; destruct mode;
+     [ cbv zeta; destruct (negb (len (firstn 16 (skipn 16 s)) =? 16)); [reflexivity|];
+       destruct (negb (key_iv_ok key (firstn 16 s))); [reflexivity|]; cbn [bind]; apply owed_blocks_avail
+     | destruct (key_iv_ok key (firstn 16 s)); reflexivity ]).
+Qed.
+
+(* a stored solid entry e that the eager reader decodes to `ents`; e' = e with its data cut after m bytes (framed in
+   any way): whatever the lazy reader yields from e' before it ends (with an error, unless nothing is missing) is a
+   prefix of `ents` — entries are not invented, altered or reordered by cutting the stream *)
+Theorem lazy_cut_yields_prefix e e' pw rb m k ents fin es f :
+  s_comp (so_hdr e) = CNo -> so_hdr e' = so_hdr e -> so_phsf e' = so_phsf e ->
+  concat (so_data e') = firstn m (concat (so_data e)) ->
+  drains (so_data e) rb -> len (concat (so_data e')) < N.of_nat k ->
+  decode_solid E D decompress verify e pw rb = Ok (ents, fin) ->
+  decode_solid_lazy E D decompress verify e' pw (repeat 16 k) = Ok (es, f) ->
+  exists tail, ents = es ++ tail.
+Proof.
+  intros Ec Hh Hp Hd Hdr Hk He Hl.
+  unfold Pipeline.decode_solid in He. rewrite (decode_stream_spec E D decompress verify _ _ _ _ _ _ _ Hdr), Ec, decode_spec_partial in He.
+  unfold Pipeline.decode_solid_lazy in Hl. rewrite Hh, Hp, Ec in Hl.
+  rewrite (reads16_deliver_all E D verify D_len _ _ _ _ _ _ Hk), Hd in Hl.
+  destruct (partial_spec E D verify (s_enc (so_hdr e)) (s_mode (so_hdr e)) (so_phsf e) pw (concat (so_data e))) as [[P2 f2]| |] eqn:E2;
+    cbn [bind fst snd] in He; try discriminate.
+  destruct f2; cbn [res_of_fin bind] in He; try discriminate.
+  destruct (partial_spec E D verify (s_enc (so_hdr e)) (s_mode (so_hdr e)) (so_phsf e) pw (firstn m (concat (so_data e)))) as [[P1 f1]| |] eqn:E1;
+    cbn [bind] in Hl; try discriminate.
+  destruct (partial_spec_cut _ _ _ _ _ _ _ _ _ E2 E1) as (rest & Hr). subst P2.
+  destruct (lazy_entries_prefix f1 rest (S (length P1)) P1 (S (length (P1 ++ rest))) (Nat.lt_succ_diag_r _)) as (tail & Ht).
+  apply ok_inj in He. apply ok_inj in Hl. rewrite He, Hl in Ht. cbn [fst] in Ht. exists tail. exact Ht.
+Qed.
+End CutPrefix.
+
+(* the instance with the model's AES-256 / Camellia-256 *)
+Theorem lazy_cut_yields_prefix_real (decompress : compression -> bytes -> res bytes) (verify : bytes -> bytes -> res bytes)
+  e e' pw rb m k ents fin es f :
+  s_comp (so_hdr e) = CNo -> so_hdr e' = so_hdr e -> so_phsf e' = so_phsf e ->
+  concat (so_data e') = firstn m (concat (so_data e)) ->
+  drains (so_data e) rb -> len (concat (so_data e')) < N.of_nat k ->
+  decode_solid real_E_of real_D_of decompress verify e pw rb = Ok (ents, fin) ->
+  decode_solid_lazy real_E_of real_D_of decompress verify e' pw (repeat 16 k) = Ok (es, f) ->
+  exists tail, ents = es ++ tail.
+Proof. exact (lazy_cut_yields_prefix real_E_of real_D_of decompress verify real_D_len e e' pw rb m k ents fin es f). Qed.
+
+(* the premises of lazy_cut_yields_prefix are satisfiable (toy block cipher): the two-entry solid entry cut inside its
+   second entry; lx_eager / lx_lazy = decode_solid / decode_solid_lazy with the entries shown by name *)
+Example lx_cut_prefix_premises :
+  s_comp (so_hdr lx_solid) = CNo /\ so_hdr (lx_cut 128) = so_hdr lx_solid /\ so_phsf (lx_cut 128) = so_phsf lx_solid /\
+  concat (so_data (lx_cut 128)) = firstn 128 (concat (so_data lx_solid)) /\
+  drains (so_data lx_solid) (repeat 16 200) /\ len (concat (so_data (lx_cut 128))) < N.of_nat 200 /\
+  lx_eager lx_solid (repeat 16 200) = Ok ([lit "a"; lit "b"], FinOk) /\
+  lx_lazy (lx_cut 128) (repeat 16 200) = Ok ([lit "a"], FinErr InvalidData).
+Proof.
+  split; [reflexivity|]. split; [reflexivity|]. split; [reflexivity|].
+  split; [cbn [lx_cut so_data concat]; rewrite app_nil_r; reflexivity|].
+  split; [split; [apply repeat_pos'; lia|vm_compute; reflexivity]|]. split; [vm_compute; reflexivity|].
+  split; [exact (proj2 (proj2 (proj2 (proj2 lx_shape))))|exact (proj1 lx_cut_inside)].
+Qed.
